@@ -150,6 +150,55 @@ class Audit:
             return "true"
         return None
 
+    def container_defaults(self, adt):
+        """field name -> what `<T as Default>::default()` puts there, for a container-level #[serde(default)]:
+        ('default',) the field type's own Default; ('k', text) a literal; ('str', text) a string literal; ('empty',) an empty
+        collection / None; ('other', text).  None when T has no readable Default impl."""
+        dimp = [i for i in self.impls.get(adt["id"], []) if i["trait"].endswith("default::Default")]
+        if not dimp:
+            return None
+        names = [f["name"] for f in adt["variants"][0]["fields"]]
+        if dimp[0]["derived"]:
+            return {n: ("default",) for n in names}
+        fn = None
+        for m in dimp[0]["methods"]:
+            if m["name"] == "default":
+                fn = self.prog.fns.get(m["id"])
+        if fn is None:
+            return None
+        sc = Scope(self.prog, fn)
+        lit = None
+        for b, i, st in fn.body.statements():
+            if st["s"] == "assign" and st["rv"]["r"] == "agg" and st["rv"].get("adt") == adt["path"]:
+                lit = sc.rvalue(st["rv"])
+        if lit is None:
+            return None
+        out = {}
+        for n, v in zip(lit[2], lit[3]):
+            v = strip(v)
+            if v[0] == "k":
+                out[n] = ("k", v[1])
+            elif v[0] == "s":
+                out[n] = ("str", v[1])
+            elif v[0] == "agg" and v[1].split("::")[-1] == "None":
+                out[n] = ("empty",)
+            elif v[0] == "call":
+                nm = short_callee(v[1])
+                args = [strip(a) for a in v[2]]
+                if nm == "default" and not args:
+                    out[n] = ("default",)
+                elif nm == "new" and not args and any(t in v[1] for t in ("String", "Vec", "BTreeMap", "HashMap", "BTreeSet")):
+                    out[n] = ("empty",)
+                elif nm in ("to_string", "to_owned", "from", "into", "into_string") and len(args) == 1 and args[0][0] == "s":
+                    out[n] = ("str", args[0][1])
+                else:
+                    out[n] = ("other", show(v)[:60])
+            elif v[0] == "agg" and not v[3] and "::" in v[1]:
+                out[n] = ("variant", v[1].split("::")[-1])
+            else:
+                out[n] = ("other", show(v)[:60])
+        return out
+
     def is_default_helper_ok(self, fn):
         """body is `t == &T::default()`"""
         calls = [short_callee(callee_name(t) or "") for _, t in fn.body.calls()]
@@ -217,6 +266,9 @@ def run_audit(ctx, au, rule="c04"):
         if isinstance(cattrs.get("rename"), dict) or isinstance(cattrs.get("rename_all"), dict):
             ctx.violation(rule + ".attr", "%s.attr|%s|rename" % (rule, disp), "asymmetric rename(serialize=.., deserialize=..)", "%s:%s" % (adt["span"][0], adt["span"][1]))
         container_default = cattrs.get("default") is True
+        cdefs = au.container_defaults(adt) if container_default and adt["kind"] == "struct" else None
+        if container_default and cdefs is None:
+            raise AnalysisError("container-level serde(default) on %s but its Default impl cannot be read" % disp)
         for v in adt["variants"]:
             vattrs = parse_attrs(v.get("serde"))
             for k in vattrs:
@@ -244,6 +296,32 @@ def run_audit(ctx, au, rule="c04"):
                     ctx.violation(rule + ".pair", pkey, "skip_serializing_if = \"%s\" without a deserialisation default: an omitted value makes the file unloadable" % skip, loc)
                     continue
                 head = f["tree"].get("id") if f["tree"].get("k") == "adt" else None
+                # what a missing key reloads as when only the container has serde(default): the field of T::default()
+                cd = cdefs.get(f["name"]) if (cdefs is not None and dflt is None) else None
+                if cd is not None and cd[0] == "default":
+                    dflt = True          # same as a field-level `default`
+                elif cd is not None:
+                    tdef = {"f32": "0.0", "f64": "0.0", "bool": "false", "std::string::String": ""}.get(f["ty"], "0" if re.match(r"^([ui]\d+|usize|isize)$", f["ty"]) else None)
+                    is_type_default = (cd[0] == "empty") or (cd[0] == "str" and cd[1] == "") or (cd[0] == "k" and tdef is not None and float_eq(cd[1], tdef)) or \
+                        (cd[0] == "variant" and head in prog.adts and cd[1] == Walker.enum_default_of(au, prog.adts[head]))
+                    shown = {"k": cd[-1], "str": '"%s"' % cd[-1], "empty": "empty", "variant": cd[-1], "other": cd[-1]}[cd[0]]
+                    if skip in STD_EMPTY or (au.fn_named(skip, adt) is not None and au.fn_named(skip, adt).id.endswith(("::is_default", "::is_empty"))):
+                        if is_type_default:
+                            dflt = True
+                        else:
+                            ctx.violation(rule + ".pair", pkey, "omitted on output when %s holds, but a missing key reloads as %s (the value %s::default() gives this field through the "
+                                          "container-level serde(default)), not as the empty/default value" % (skip, shown, disp.split("::")[-1]), loc)
+                            continue
+                    else:
+                        pfn0 = au.fn_named(skip, adt)
+                        pc0 = au.pred_constant(pfn0) if pfn0 is not None else None
+                        if pc0 is None or cd[0] != "k":
+                            raise AnalysisError("cannot compare skip predicate %s of %s with the container default %s" % (skip, fkey, shown))
+                        if float_eq(pc0, cd[1]):
+                            ctx.ok(rule + ".pair", pkey, "%s is true exactly for %s, the value %s::default() gives this field (container-level default)" % (skip, cd[1], disp.split("::")[-1]), loc)
+                        else:
+                            ctx.violation(rule + ".pair", pkey, "value %s is omitted on output (%s) but a missing key reloads as %s (%s::default())" % (pc0, skip, cd[1], disp.split("::")[-1]), loc)
+                        continue
                 if skip in STD_EMPTY:
                     if head != STD_EMPTY[skip]:
                         ctx.violation(rule + ".pair", pkey, "skip predicate %s on a field of type %s" % (skip, f["ty"]), loc)
@@ -418,13 +496,17 @@ class Walker:
         self.problems.append("%s: %s" % (path or "$", msg))
 
     def enum_default(self, adt):
-        imps = [i for i in self.au.impls.get(adt["id"], []) if i["trait"].endswith("default::Default")]
+        return Walker.enum_default_of(self.au, adt)
+
+    @staticmethod
+    def enum_default_of(au, adt):
+        imps = [i for i in au.impls.get(adt["id"], []) if i["trait"].endswith("default::Default")]
         if not imps:
             return None
         m = imps[0]["methods"]
-        if not m or m[0]["id"] not in self.prog.fns:
+        if not m or m[0]["id"] not in au.prog.fns:
             return None
-        fn = self.prog.fns[m[0]["id"]]
+        fn = au.prog.fns[m[0]["id"]]
         rn = returned_nodes(fn.body)
         if len(rn) == 1 and rn[0][1][0] == "agg":
             return rn[0][1][1].split("::")[-1]
